@@ -260,3 +260,6 @@ func vJSONFields(v any) []string {
 	}
 	return out
 }
+
+func vSyncEventsOf(obj any) string { return "" }
+func vSyncReset()                  {}
